@@ -112,4 +112,38 @@ def run_node(tier):
     cov = {"atomicity_node_level": {"cases": len(cases), "concurrent_runs": rep["runs"],
                                     "nonlinearizable": len(rep["nonlinearizable"]), "stuck": len(rep["stuck"]),
                                     "spec_divergences": len(rep["spec_divergences"]), "harness": st}}
-    return viol, cov, rep["runs"]
+    # ---- time passes while a request is preempted: the same pairs of payment requests on a node whose payment
+    # velocity limit is one v1 amount per hour (already used up by the prefix); the clock advances by one bucket
+    # (300 s) between the two requests of the sequential references and, in the concurrent runs, while the held
+    # thread waits at its stop point.  Every reply must be that of a sequential order (both declined).
+    pay = [r for r in reqs if r["op"] in ("AddInvoice", "AddKeysend")]
+    tcases = [{"prefix": [{"op": "AddKeysend", "h": "h2", "v": "v1"}], "a": a, "b": b, "policy": "paylimit", "tick": 300}
+              for i, a in enumerate(pay) for b in pay[i:]]
+    tcf = os.path.join(d, "cases_tick.ndjson")
+    with open(tcf, "w") as f:
+        for c in tcases:
+            f.write(json.dumps(c) + "\n")
+    truns = os.path.join(d, "runs_tick.ndjson")
+    tst = vlib.run_bin(binpath, ["conc-node", "--cases", tcf, "--out", truns], timeout=1800)
+    treport = os.path.join(d, "report_tick.json")
+    vlib.tlc("ConcNode", os.path.join(SPEC, "ConcNode.cfg"),
+             env={"CN_RUNS": truns, "CN_REPORT": treport,
+                  "ND_ATOMIC_ALLOWLIST": "true" if sw.get("atomicAllowlist") else "false"},
+             workers=1, timeout=1800, name="conc-node-tick")
+    trep = json.load(open(treport))
+    for x in trep["nonlinearizable"]:
+        key = "node-nonlinearizable-clock:%s||%s" % tuple(sorted([x["a"]["op"], x["b"]["op"]]))
+        viol.append({"key": key, "what": "concurrent %s and %s while the clock advances by one velocity bucket: replies %s / %s, "
+                                         "sequentially %s / %s" % (x["a"]["op"], x["b"]["op"], x["ra"], x["rb"],
+                                                                   x["sab"]["ra"], x["sab"]["rb"]),
+                     "replay": {"kind": "conc-node", "run": x}})
+    for x in trep["stuck"]:
+        key = "node-stuck-clock:%s||%s" % tuple(sorted([x["a"]["op"], x["b"]["op"]]))
+        viol.append({"key": key, "what": "concurrent %s and %s (clock advancing) never completed" % (x["a"]["op"], x["b"]["op"]),
+                     "replay": {"kind": "conc-node", "run": x}})
+    cov["atomicity_node_level_clock"] = {"cases": len(tcases), "concurrent_runs": trep["runs"],
+                                         "nonlinearizable": len(trep["nonlinearizable"]), "stuck": len(trep["stuck"]),
+                                         "declined_replies_in_sequential_references":
+                                             sum(1 for l in open(truns) for x in [json.loads(l)] if x.get("sab", {}).get("rb", {}).get("flag") == 0),
+                                         "harness": tst}
+    return viol, cov, rep["runs"] + trep["runs"]
